@@ -3,6 +3,7 @@ import MlModel.Lemmas.OwnerExit
 import MlModel.Lemmas.OwnerEnv
 import MlModel.Lemmas.OwnerComposite
 import MlModel.Lemmas.OwnerShared
+import MlModel.Lemmas.OwnerFin
 /-!
 # C20 — worker liveness and ownership bookkeeping stays consistent
 
@@ -439,20 +440,30 @@ theorem C20_sched_not_started_only_before_try (pw : Owner.Pid → List Owner.Wid
   OwnerEnv.xstep_pretry hcur hpre h
 
 /-- **Released when `run` / `call_and_wait` returns or raises, under every schedule.**  Thread `t` is the only thread that
-acquires for pool `p` (others may release, call, poll `idle_workers` for it).  In any reachable configuration of the product in which `t` is inside the finaliser of a composite operation of `p`
-(`Ctl.fin p o`: `o` is what the operation will return or raise), the step that ends the operation — the controller becomes
-idle — leaves pool `p` without any acquired worker, and records `o`.  Deaths, revivals, heartbeats, clock ticks past the
-deadlines, late / failed / missing replies interleaved anywhere make no difference. -/
+acquires for pool `p` (others may release, call, poll `idle_workers` for it); initially no thread is inside a composite
+operation.  In any reachable configuration of the product in which `t`'s controller is in the finaliser of a composite
+operation of `p` (`Ctl.fin p o`: `o` is what the operation will return or raise — by
+`C20_sched_try_exits_through_finally` the only way out of its `try:`), the step that ends the operation — the controller
+becomes idle — leaves pool `p` without any acquired worker, and records `o`.  Deaths, revivals, heartbeats, clock ticks
+past the deadlines, late / failed / missing replies interleaved anywhere make no difference.  (That `Ctl.fin` is only held
+inside `release_all` of the ownership LTS is an invariant of the product: `OwnerEnv.FinOK_reach`.) -/
 theorem C20_sched_composite_released (pw : Owner.Pid → List Owner.Wid) (p : Owner.Pid) (t : Owner.Tid)
-    (x0 x x' : OwnerEnv.X) (h0 : Owner.Init x0.base)
+    (x0 x x' : OwnerEnv.X) (h0 : Owner.Init x0.base) (hctl0 : ∀ t, x0.env.ctl t = .idle)
     (hacq : ∀ t', t' ≠ t → ∀ op ∈ (x0.base.T t').script, op.pool = p → op.mayAcq = false)
-    (hr : OwnerEnv.XReach pw x0 x) (o : OwnerEnv.Outc) (cl : Owner.Call) (rest : List Owner.Wid)
-    (hctl : x.env.ctl t = .fin p o) (hcur : (x.base.T t).cur = some (cl, .relAll p rest true))
+    (hr : OwnerEnv.XReach pw x0 x) (o : OwnerEnv.Outc) (hctl : x.env.ctl t = .fin p o)
     (hs : OwnerEnv.xstep? pw x t = some x') (hidle : x'.env.ctl t = .idle) :
     Owner.acquiredWorkers pw x'.base.W p = [] ∧ x'.env.outs t = x.env.outs t ++ [o] := by
+  obtain ⟨cl, rest, hcur⟩ := OwnerEnv.FinOK_reach hctl0 hr t p o hctl
   obtain ⟨hnone, hex, hout⟩ := OwnerEnv.xstep_fin_exit hctl hcur hs hidle
   exact ⟨C20_released_on_exit_shared pw p t x0.base x'.base h0 hacq
     (OwnerEnv.XReach_base (OwnerEnv.XReach.step hr hs)) hnone hex, hout⟩
+
+/-- The controller is in `Ctl.fin p o` only while the thread is inside the finaliser `release_all()` of `p` in the
+ownership LTS — in every reachable configuration. -/
+theorem C20_sched_fin_inside_finaliser (pw : Owner.Pid → List Owner.Wid) (x0 x : OwnerEnv.X)
+    (hctl0 : ∀ t, x0.env.ctl t = .idle) (hr : OwnerEnv.XReach pw x0 x) (t : Owner.Tid) (p : Owner.Pid) (o : OwnerEnv.Outc)
+    (hctl : x.env.ctl t = .fin p o) : ∃ cl rest, (x.base.T t).cur = some (cl, .relAll p rest true) :=
+  OwnerEnv.FinOK_reach hctl0 hr t p o hctl
 
 /-! ## Non-vacuity: the hypotheses are satisfiable and the conclusions are reached -/
 
@@ -538,6 +549,10 @@ set_option maxRecDepth 20000 in
 /-- waiting for the reply: the worker is acquired by pool 0, the controller is inside the `try:` (test by evaluation) -/
 example : ((OwnerEnv.xrun pw1 rcfg rsched1).base.W 0).pool = some 0 ∧
     (OwnerEnv.xrun pw1 rcfg rsched1).env.ctl 0 = .rSub 0 false 0 := by decide
+example : ∀ t, rcfg.env.ctl t = .idle := fun _ => rfl
+set_option maxRecDepth 20000 in
+/-- in the middle of the `finally:` the controller is `fin 0 ok` (hypothesis `hctl` of `C20_sched_composite_released`) -/
+example : (OwnerEnv.xrun pw1 rcfg (List.replicate 40 0 ++ [1] ++ List.replicate 4 0)).env.ctl 0 = .fin 0 .ok := by decide
 set_option maxRecDepth 20000 in
 /-- after the reply and the `finally:`: outcome `ok`, nothing acquired, exit marker set (test by evaluation) -/
 example : (OwnerEnv.xrun pw1 rcfg rsched2).env.outs 0 = [.ok] ∧
